@@ -180,6 +180,11 @@ class Sched:
                 fr = b.frame("1", E, [(112, "PING")])
             elif kind == "gap":
                 fr = b.frame("D", E + 3, [(11, "far")])
+            elif kind == "gaprr":
+                # the peer's ResendRequest / TestRequest numbered above the expectation: the endpoint first asks for the gap, then serves / answers
+                fr = b.frame("2", E + 3, [(7, 1), (16, 0)])
+            elif kind == "gaptr":
+                fr = b.frame("1", E + 3, [(112, "PING-HIGH")])
             elif kind == "appmsg":
                 fr = b.frame("D", E, [(11, "in1")]) + b.frame("1", E + 1, [(112, "P2")])
             elif kind == "logon":
